@@ -235,7 +235,7 @@ def save_replay(pid, rec_path, line, extra):
     # the behaviour containing `line` (1-based): from the last InitChain at or before it
     start = 0
     for i in range(min(line, len(lines)) - 1, -1, -1):
-        if lines[i].startswith('{"a":"InitChain"'):
+        if lines[i].startswith(('{"a":"InitChain"', '{"a":"Reset"', '{"a":"Convert"')):
             start = i
             break
     with open(out, "w") as f:
